@@ -67,7 +67,7 @@ structure DSt where
   pausedEvents : Nat := 0         -- events reported by an object without authority
   paused : Bool := false
   overtaken : Nat := 0            -- Y operations
-  overtakenDiff : Nat := 0        -- … in which the late state-type read changes the first result's event (model)
+  overtakenDiff : Nat := 0        -- … in which the two results leave different state types
 
 def showObs (o : Obs) : String :=
   s!"{showBool o.accepted},{o.state.toNat},{o.stype.toNat},{o.attempt},{o.lastHard.toNat},{o.ev.toNat},{o.prevHard},{o.vaState},{o.vaType},{o.vaAttempt},{o.apiState},{o.apiLastState},{o.apiLastHard}"
@@ -103,9 +103,9 @@ def stOfObs (o : Obs) (old : St) (lastExec : Option Int) : St :=
   { state := o.state, stype := o.stype, attempt := o.attempt, lastHard := o.lastHard,
     hist := o.lastHard.toNat * 100 + o.prevHard, lastState := old.state, lastExec := lastExec }
 
-/-- `overtaken`: the line is the first half of a `Y` operation; `evOverride`: the event the model computes for it
-    (its state-type read happens after the second half was processed). -/
-def handleCore (overtaken : Bool) (evOverride : Option Ev) (d : DSt) (n : Nat) (line : String) : IO DSt := do
+/-- `overtaken`: the line is the first half of a `Y` operation (same model, same specification; a wrong event is
+    reported under the clause name of F-C01a). -/
+def handleCore (overtaken : Bool) (d : DSt) (n : Nat) (line : String) : IO DSt := do
   let ws := words line
   match ws with
   | [] => return d
@@ -155,12 +155,7 @@ def handleCore (overtaken : Bool) (evOverride : Option Ev) (d : DSt) (n : Nat) (
       match (parseNat? st) >>= SState.ofNat?, parseInt? es, parseInt? nw with
       | some rs, some es, some nw =>
         let r : Res := { state := rs, execStart := es, now := nw }
-        let p0 := step d.cfg d.st r
-        -- an overtaken result: the code as written re-reads the state type late (`evOverride`, F-C01a); an
-        -- implementation that reports the sequential event (repaired, or signals in another order) is right too
-        let p : St × Ev × Bool := match evOverride with
-          | some e => if p0.2.2 && io.ev != p0.2.1 then (p0.1, e, true) else p0
-          | none => p0
+        let p := step d.cfg d.st r
         let mo := obsOf d.cfg p
         let mut d := { d with steps := d.steps + 1 }
         if via == "2" then d := { d with viaApi := d.viaApi + 1 }
@@ -171,10 +166,7 @@ def handleCore (overtaken : Bool) (evOverride : Option Ev) (d : DSt) (n : Nat) (
         -- the specification on the implementation's own observation
         if io.accepted && io.ev == .hard && d.h.hardAt.isSome then
           d := { d with hardEvAfterHard := d.hardEvAfterHard + 1 }
-        -- the separate clause name only where the late re-read of the state type (the model's event) explains the
-        -- implementation's event; any other wrong event of an overtaken result is an ordinary event failure
-        let (cl, sp', h') := if overtaken && evOverride == some io.ev then overtakenStep d.cfg d.sp d.h r io
-                             else fullStep d.cfg d.sp d.h r io
+        let (cl, sp', h') := if overtaken then overtakenStep d.cfg d.sp d.h r io else fullStep d.cfg d.sp d.h r io
         match cl with
         | some cl =>
           if !d.caseFailed then
@@ -264,18 +256,17 @@ def handle (d : DSt) (n : Nat) (line : String) : IO DSt := do
     | [sa, sb, es, nw] =>
       match (parseNat? sa) >>= SState.ofNat?, (parseNat? sb) >>= SState.ofNat?, parseInt? es, parseInt? nw with
       | some a, some b, some e, some w =>
-        let ra : Res := { state := a, execStart := e, now := w }
-        let rb : Res := { state := b, execStart := e, now := w }
-        let p1 := step d.cfg d.st ra
-        let p2 := step d.cfg p1.1 rb
-        let evA := if p1.2.2 then eventRead d.cfg d.st a p1.1.stype p2.1.stype else Ev.none
+        -- an overtaken result counts when it reached hard/soft differently from the overtaking one (the case in which
+        -- a late re-read of the state type would show)
+        let p1 := step d.cfg d.st { state := a, execStart := e, now := w }
+        let p2 := step d.cfg p1.1 { state := b, execStart := e, now := w }
         let d := { d with overtaken := d.overtaken + 1,
-                          overtakenDiff := d.overtakenDiff + (if evA != p1.2.1 then 1 else 0) }
-        let d ← handleCore true (some evA) d n (" ".intercalate (["R", sa, es, nw, "1", "|"] ++ obsA))
-        handleCore false none d n (" ".intercalate (["R", sb, es, nw, "0", "|"] ++ restB))
+                          overtakenDiff := d.overtakenDiff + (if p1.1.stype != p2.1.stype then 1 else 0) }
+        let d ← handleCore true d n (" ".intercalate (["R", sa, es, nw, "1", "|"] ++ obsA))
+        handleCore false d n (" ".intercalate (["R", sb, es, nw, "0", "|"] ++ restB))
       | _, _, _, _ => IO.println s!"BADLINE line={n}"; return d
     | _ => IO.println s!"BADLINE line={n}"; return d
-  | _ => handleCore false none d n line
+  | _ => handleCore false d n line
 
 def main : IO Unit := do
   let stdin ← IO.getStdin
